@@ -229,6 +229,12 @@ int main(int argc, char** argv)
         } else if (!strcmp(cmd, "c")) {
             unsigned long long n, cap; sscanf(line + off, "%llu %llu", &n, &cap); do_ccall('c', (size_t)n, (size_t)cap);
         } else if (!strcmp(cmd, "e")) {
+            /* e <cap> : ZSTD_seekable_endFrame, repeated (as for every zstd "end" call) until it reports the flush complete;
+             * a room too small to ever finish is enlarged after a few attempts */
+            unsigned long long cap; size_t r; int tries = 0;
+            sscanf(line + off, "%llu", &cap);
+            do { r = do_ccall('e', 0, (size_t)(tries < 6 ? cap : cap + 64)); tries++; } while (r != 0 && !ZSTD_isError(r) && tries < 100000);
+        } else if (!strcmp(cmd, "e1")) {            /* a single ZSTD_seekable_endFrame call, whatever it returns (documented observation only) */
             unsigned long long cap; sscanf(line + off, "%llu", &cap); do_ccall('e', 0, (size_t)cap);
         } else if (!strcmp(cmd, "s")) {
             unsigned long long cap; sscanf(line + off, "%llu", &cap); do_ccall('s', 0, (size_t)cap);
